@@ -159,6 +159,9 @@ func genJsonDec(tier string, seed uint64) {
 	}
 	for u := 0; u < 0x10000; u += step {
 		emitJ([]byte(fmt.Sprintf("\"\\u%04x\"", u)))
+		if u%3 == 0 {
+			emitJ([]byte(fmt.Sprintf("\"\\u%04X\"", u)))
+		}
 	}
 	for i := 0; i < 3000; i++ {
 		hi, lo := 0xd800+r.intn(0x800), 0xd800+r.intn(0x800)
